@@ -105,7 +105,7 @@ ASSUMPTIONS = [
     'an operation that raises is not a result (C01 judges completion)',
     'audit_meta is used only as a second opinion; it raises KeyError on '
     'boundary files that carry NROWS/NCOLS (counted as audit-raised)']
-BUDGET = {'quick': dict(examples=2400, max_s=240, shrink_cap=250),
+BUDGET = {'quick': dict(examples=3600, max_s=240, shrink_cap=250),
           'thorough': dict(examples=30000, max_s=3000, shrink_cap=400)}
 
 REDUCERS = ('mean', 'sum', 'min', 'max', 'std')
